@@ -272,8 +272,8 @@ type coarseChooser struct {
 	last int
 }
 
-var majorPoints = map[string]bool{"start": true, "w.begin": true, "s.open": true, "s.chunk": true, "s.close": true,
-	"s.copy": true, "r.begin": true, "r.end": true, "d.step": true, "d.end": true, "unblocked": true}
+var majorPoints = map[string]bool{"w.begin": true, "s.open": true, "s.chunk": true, "s.close": true,
+	"s.copy": true, "r.begin": true, "r.end": true, "d.step": true, "d.end": true, "unblocked": true, "u.merge": true}
 
 func (c *coarseChooser) choose(step int, parked []int) int {
 	if s := curSched; s != nil && c.last >= 0 {
@@ -289,3 +289,61 @@ func (c *coarseChooser) choose(step int, parked []int) int {
 }
 
 var curSched *Sched
+
+// coarsePlanChooser: like coarseChooser, but the decisions at the major points follow a plan (then
+// the first parked thread); it records how many alternatives each decision had, for the
+// depth-first enumeration of all coarse schedules
+type coarsePlanChooser struct {
+	plan  []int
+	k     int
+	last  int
+	dalts []int
+	begun map[int]bool // threads that have started the commit of a block already
+	fine  bool         // the start of a thread's first block commit is a decision point too
+	rng   *Rng         // decisions beyond the plan are random instead of "the first parked thread"
+}
+
+// the decision points of the enumeration: the snapshot's steps (recorder install, each block read,
+// recorder removal) and the start of every block commit but a thread's very first (a transaction's
+// body and its first block commit form one step: nothing it shares happens in between)
+func (c *coarsePlanChooser) major(tid int, at string) bool {
+	switch at {
+	case "s.open", "s.chunk", "s.close":
+		return true
+	case "w.begin":
+		return c.fine || c.begun[tid]
+	}
+	return false
+}
+
+func (c *coarsePlanChooser) choose(step int, parked []int) int {
+	if c.begun == nil {
+		c.begun = map[int]bool{}
+	}
+	pick := func(i int) int {
+		if s := curSched; s != nil && s.thr[parked[i]].at == "w.begin" {
+			c.begun[parked[i]] = true
+		}
+		c.last = parked[i]
+		return i
+	}
+	if s := curSched; s != nil && c.last >= 0 {
+		for i, tid := range parked {
+			if tid == c.last && !c.major(tid, s.thr[tid].at) {
+				return pick(i)
+			}
+		}
+	}
+	i := 0
+	if c.k < len(c.plan) {
+		i = c.plan[c.k]
+	} else if c.rng != nil {
+		i = c.rng.Intn(len(parked))
+	}
+	if i >= len(parked) {
+		i = len(parked) - 1
+	}
+	c.k++
+	c.dalts = append(c.dalts, len(parked))
+	return pick(i)
+}
